@@ -3,6 +3,7 @@ result parsing, evidence and violation reporting, known findings."""
 import hashlib
 import json
 import os
+import shutil
 import random
 import re
 import subprocess
@@ -142,8 +143,31 @@ def forbidden_declarations():
     return bad
 
 
+def _alive(n):
+    try:
+        os.kill(n, 0)
+        return True
+    except ProcessLookupError:
+        return False
+    except OSError:
+        return True
+
+
 def workdir(pid):
-    d = os.path.join(WORK, pid)
+    """Scratch directory for generated .v files: one per (check, process), so that two runs of one check (quick and
+    thorough, or the same tier twice) never wipe each other's files.  Directories of processes that no longer exist are removed."""
+    base = os.path.join(WORK, pid)
+    os.makedirs(base, exist_ok=True)
+    for f in os.listdir(base):
+        q = os.path.join(base, f)
+        if f.startswith("run-") and os.path.isdir(q):
+            try:
+                owner = int(f[4:])
+            except ValueError:
+                continue
+            if owner != os.getpid() and not _alive(owner):
+                shutil.rmtree(q, ignore_errors=True)
+    d = os.path.join(base, "run-%d" % os.getpid())
     os.makedirs(d, exist_ok=True)
     for f in os.listdir(d):
         if f.endswith((".v", ".vo", ".glob", ".vok", ".vos", ".aux", ".out")):
@@ -221,10 +245,12 @@ def props_assumptions(pid):
     f = os.path.join(COQDIR, "theories", "Props", pid + ".v")
     if not os.path.exists(f):
         return [], []
-    os.makedirs(os.path.join(WORK, "props"), exist_ok=True)
+    pd = os.path.join(WORK, "props", "run-%d" % os.getpid())      # per process: concurrent checks never share an output file
+    os.makedirs(pd, exist_ok=True)
     p = subprocess.run(["timeout", "900", "coqc", "-Q", "theories", "PV", "-o",
-                        os.path.join(WORK, "props", pid + ".vo"), "theories/Props/%s.v" % pid], cwd=COQDIR, stdout=subprocess.PIPE,
+                        os.path.join(pd, pid + ".vo"), "theories/Props/%s.v" % pid], cwd=COQDIR, stdout=subprocess.PIPE,
                        stderr=subprocess.STDOUT, text=True)
+    shutil.rmtree(pd, ignore_errors=True)
     src = open(f).read()
     thms = re.findall(r"^(?:Theorem|Example|Corollary)\s+([A-Za-z0-9_']+)", src, re.M)
     if p.returncode != 0:
